@@ -285,7 +285,9 @@ def scenarios(ctx):
                         for cbm, stm in (("ok", "ok"), ("raise", "ok"), ("slow", "slow"), ("ok", "raise"), (["ok", "close"], "ok"), ("close", "raise"), ("ok", "close-on-disconnect"), ("ok", "slow-connected"), ("ok", "connect-on-disconnect"), (["ok", "cancelled", "ok"], "ok")):
                             out.append(dict(kind=kind, shape=shape, connect=cs, action=action, point=[kindp, v], cb=cbm, status=stm,
                                             drain=rnd.choice([None, [1], [0, 2], [3]])))
-    # families outside the product above
+    rnd.shuffle(out)
+    main, out = out, []
+    # families outside the product above: they are few and run first, on every check (the product is sampled)
     for kind in kinds:
         for st in ("cancelled", "badstr"):
             for cs in (["ok"], ["refuse", "ok"]):
@@ -312,6 +314,9 @@ def scenarios(ctx):
         if kind != "actisense":
             for variant in range(12):
                 out.append(dict(kind=kind, shape="realmulti", connect=["ok"], action=rnd.choice(["none", "none", "eof"]), point=["at", rnd.choice([0.4, 2.0, 9.0])], cb="ok", status="ok", drain=None, variant=variant))
+        for action in ("eof", "readerr", "writefail"):
+            for kindp, v in [("ticks", 6), ("at", 0.4), ("at", 2.0)]:
+                out.append(dict(kind=kind, shape=rnd.choice(["plain", "send"]), connect=["ok"], action=action, point=[kindp, v], cb="ok", status="close-on-reconnected", drain=None))
         # connect failures that are OSErrors but not ConnectionErrors
         for cs in (["unreachable", "unreachable", "ok"], ["ok", "unreachable", "ok"]):
             for action in ("none", "eof", "close"):
@@ -333,7 +338,7 @@ def scenarios(ctx):
                 for cs in (["ok", "refuse", "refuse", "refuse", "refuse", "ok"], ["ok", ["slow", 5], "ok"]):
                     out.append(dict(kind=kind, shape="plain", connect=cs, action="eof-close", point=[kindp, v], cb="ok", status="ok", drain=None, close_after=delay))
     rnd.shuffle(out)
-    return out
+    return out + main
 
 
 _LOADED = [None]
@@ -404,6 +409,12 @@ def c12_stream(kind, rnd, n):
                 q = bytearray(p); q[rnd.randrange(2, 20)] ^= 0x40; p = bytes(q)        # bad checksum
             else:
                 p = rnd.choice([b"garbage line %d\r\n" % i, b"garbage \xff\xfe line %d\r\n" % i, b"caf\xe9 %d \xc3\r\n" % i, b"\xf0\x9f\r\n"])    # incl. invalid UTF-8
+                if rnd.random() < 0.4:
+                    # a valid line damaged by bytes that are not text: it is not a sentence any more (dropping the bytes would repair it)
+                    q = bytearray(PACKET[kind](i))
+                    for _ in range(rnd.choice([1, 2])):
+                        q.insert(rnd.randrange(14, len(q) - 2), rnd.choice([0xff, 0xfe, 0xc3, 0x80]))
+                    p = bytes(q)
         elif k < 0.32 and k >= 0.25:   # well-framed, but the per-PGN decoder raises (out-of-range payload)
             bad = bytes([0xFE] * 8)
             if kind == "ebyte":
@@ -510,9 +521,9 @@ def reference_outputs(kind, packets):
             elif kind == "waveshare":
                 m = d.decode_usb(p)
             elif kind == "yd":
-                m = d.decode_yacht_devices_string(p.decode("utf-8", errors="ignore").strip())
+                m = d.decode_yacht_devices_string(p.decode("utf-8", errors="replace").strip())
             else:
-                m = d.decode_actisense_string(p.decode("utf-8", errors="ignore").strip())
+                m = d.decode_actisense_string(p.decode("utf-8", errors="replace").strip())
         except Exception:
             continue
         if m is not None:
@@ -549,7 +560,7 @@ def suite_framing(ctx, n=None):
         got = ",".join(harness.hx(b) for c_, b in sim.read_log if c_ == 1 and not (eof and kind in ("yd", "actisense") and not b.endswith(b"\n")))
         cmd = {"ebyte": "reader.feed13", "yd": "reader.lines", "actisense": "reader.lines"}.get(kind)
         if cmd == "reader.lines":
-            # the text clients: what reaches the decoder is the model's lines, each decoded as UTF-8 (invalid bytes dropped) and stripped;
+            # the text clients: what reaches the decoder is the model's lines, each decoded as UTF-8 (invalid bytes kept visible as U+FFFD) and stripped;
             # the unterminated rest at the end of the stream is not a line
             s.add(f"{cmd} {','.join(harness.hx(r) for r in reads)}", None, kind, meta=("lines", "\x00".join(getattr(sim, "decoder_inputs", []))))
         elif cmd:
@@ -576,7 +587,7 @@ def suite_framing(ctx, n=None):
         else:
             model = resp.split(" ", 1)[1] if " " in resp else ""
         if meta[0] == "lines":
-            model = "\x00".join(bytes.fromhex(x).decode("utf-8", errors="ignore").strip() for x in model.split(",") if x)
+            model = "\x00".join(bytes.fromhex(x).decode("utf-8", errors="replace").strip() for x in model.split(",") if x)
         if model != meta[1]:
             s.disagreements.append({"request": req, "implementation": meta[1], "model": model, "meta": None})
     s.exp = [m[1] for m in s.meta]
